@@ -355,7 +355,24 @@ def run(C, R):
             for e in [c for c in calls if c['name'] == 'meld']:
                 src = [u for u in ul if u['args'] == (e['args'][1],)]
                 ok = ok and src and e['args'][0] == E.project(src[0]['ret'], (('dc', 'Some'), '0'))
+            # the accumulator is threaded through: every maybe_meld(current, x) receives the result of the previous
+            # round (None in the first), x is this round's meld(prev, node) (or the lone last node), and the
+            # function returns the last accumulation - no merged subtree is dropped on the way
+            acc = NONE
+            last_meld = None
+            for e in calls:
+                if e['name'] == 'meld':
+                    last_meld = e
+                elif e['name'] == 'maybe_meld':
+                    a0, a1 = e['args']
+                    ok = ok and a0 == acc
+                    if last_meld is not None:
+                        ok = ok and a1 == last_meld['ret']
+                    last_meld = None
+                    acc = some(e['ret'])
+            mm = [e for e in calls if e['name'] == 'maybe_meld']
+            ok = ok and bool(mm) and path.ret == mm[-1]['ret']
             report('C20.R2', fn, path, ok, 'merge_children: right-to-left pairing from last_child, parents cleared, '
-                   'result is the accumulated meld')
+                   'accumulator threaded through every round, result is the last accumulation')
         R.floor('C20.R2 merge-children-paths[%s]' % cfg, nmc, 3)
         R.floor('C20 list-returning-paths[%s]' % cfg, nret, 15)
